@@ -178,9 +178,11 @@ Lemma fail_keeps_locked u : 0 < c_lock_duration cfg -> now < u_locked u ->
   is_locked E (lock_apply E u (LFail now)) = true.
 Proof.
   intros Hd Lk. unfold is_locked, lock_apply, set_ltriple, ltriple, locked_at, lstep, lcfg_of. simpl.
-  destruct (now - u_last u <=? c_lock_window cfg); simpl; [|apply Z.ltb_lt; exact Lk].
-  destruct (c_lock_after cfg <=? u_attempts u + 1); simpl; apply Z.ltb_lt; [|exact Lk].
-  apply Z.lt_add_pos_r. exact Hd.
+  destruct (now - u_last u <=? c_lock_window cfg); simpl.
+  - destruct (c_lock_after cfg <=? u_attempts u + 1); simpl; apply Z.ltb_lt; [|exact Lk].
+    apply Z.lt_add_pos_r. exact Hd.
+  - destruct (c_lock_after cfg <=? 1); simpl; apply Z.ltb_lt; [|exact Lk].
+    apply Z.lt_add_pos_r. exact Hd.
 Qed.
 
 (* ---- the head of login_post: a readable body, the load ----------------------------------- *)
